@@ -1,2 +1,730 @@
-// Package c15: (not built yet)
+// Package c15: contact query evaluation is total and logically consistent.
+//
+// Every case calls the real contactql.ParseQuery (resolver = real SessionAssets) and the real
+// contactql.EvaluateQuery on a real flows.Contact read from JSON. The oracles are the clauses of the
+// property statement: no panic; AND/OR combine operand results; Simplify keeps the meaning;
+// empty-valued =/!= test absence/presence; for number and date properties exactly one of <,=,>
+// holds, <=/>= are the unions, != negates =; dates are compared by calendar day in the
+// environment's zone (reference: y-m-d of the instant in that zone).
 package c15
+
+import (
+	"encoding/json"
+	"fmt"
+	"sort"
+	"strings"
+	"time"
+
+	"github.com/nyaruka/gocommon/dates"
+	"github.com/nyaruka/gocommon/urns"
+	"github.com/nyaruka/goflow/contactql"
+	"verif/mc"
+)
+
+// group is a shardable unit of work: it emits cases.
+type group struct {
+	name string
+	gen  func(emit func(*Case))
+}
+
+// ---- part A: single conditions ------------------------------------------------------------------
+
+var operatorsAsWritten = []string{"=", "!=", "~", ">", "<", ">=", "<=", "has", "is", "HAS"}
+
+func propertiesAsWritten() []string {
+	props := []string{"uuid", "id", "name", "status", "language", "urn", "group", "flow", "history", "tickets", "created_on", "last_seen_on", "NAME"}
+	var schemes []string
+	for _, s := range urns.Schemes {
+		schemes = append(schemes, s.Prefix)
+	}
+	sort.Strings(schemes)
+	for _, s := range schemes {
+		props = append(props, s, "urns."+s)
+	}
+	for _, f := range []string{"gender", "age", "joined", "state", "district", "ward"} {
+		props = append(props, f, "fields."+f)
+	}
+	return append(props, "nope", "fields.nope", "urns.nope", "attrs.name")
+}
+
+func condValues(df string) []string {
+	d1 := Day{2025, 6, 15}
+	d2 := Day{2020, 1, 1}
+	vals := []string{
+		`""`, `bob`, `"Ann Lee"`, `an`, `a`, `F`, `active`, `blocked`, `eng`, `Testers`, `"no such group"`, `Registration`,
+		`+12065551212`, `2065`, `20`, `ann`, `"Kigali City"`, `Gasabo`, `Ndera`, `"x y"`,
+		`-1`, `0`, `0.5`, `1`, `1000000000000000000`, `1e3`, `+1`, `.5`, `1.`, `1,5`,
+		`"` + d1.format(df) + `"`, `"` + d2.format(df) + `"`, `"` + d2.format(df) + ` 12:00"`, `2020-01-01T12:00:00Z`, `13-13-2025`, `"` + d1.format(df) + ` 25:99"`,
+	}
+	if df != "YYYY-MM-DD" {
+		vals = append(vals, d1.String())
+	}
+	return vals
+}
+
+func instantUTC(y int, m time.Month, d, hh, mm int) string {
+	return rfc(time.Date(y, m, d, hh, mm, 0, 0, time.UTC))
+}
+
+// genericProfiles: the empty contact, the full contact, and contacts that differ from the full one in
+// one respect (missing value, several URNs of one scheme, other status...).
+func genericProfiles() []Profile {
+	full := Profile{
+		Name: "Ann Lee", Lang: "eng", URNs: []string{"tel:+12065551212"}, Gender: "F", Age: "1", Joined: instantUTC(2025, 6, 15, 12, 0),
+		State: "Rwanda > Kigali City", District: "Rwanda > Kigali City > Gasabo", Ward: "Rwanda > Kigali City > Gasabo > Ndera",
+		CreatedOn: defaultCreatedOn, LastSeen: instantUTC(2025, 6, 15, 12, 0), Ticket: true, InGroup: true,
+	}
+	ps := []Profile{{CreatedOn: defaultCreatedOn}, full}
+	mod := func(f func(p *Profile)) {
+		p := full
+		p.URNs = append([]string{}, full.URNs...)
+		f(&p)
+		ps = append(ps, p)
+	}
+	mod(func(p *Profile) { p.Name = "" })
+	mod(func(p *Profile) { p.Name = "bob" })
+	mod(func(p *Profile) { p.Lang = "" })
+	mod(func(p *Profile) { p.URNs = nil })
+	mod(func(p *Profile) { p.URNs = []string{"tel:+12065551212", "tel:+12065553333", "twitter:ann"} })
+	mod(func(p *Profile) { p.URNs = []string{"twitter:bob", "mailto:ann@example.com", "whatsapp:12065551212"} })
+	mod(func(p *Profile) { p.Gender = "" })
+	mod(func(p *Profile) { p.Age = "" })
+	mod(func(p *Profile) { p.Age = "-1" })
+	mod(func(p *Profile) { p.Age = "0.5" })
+	mod(func(p *Profile) { p.Age = "1000000000000000000" })
+	mod(func(p *Profile) { p.Joined = "" })
+	mod(func(p *Profile) { p.Joined = instantUTC(2020, 1, 1, 0, 0) })
+	mod(func(p *Profile) { p.State, p.District, p.Ward = "", "", "" })
+	mod(func(p *Profile) { p.Ward = "" })
+	mod(func(p *Profile) { p.LastSeen = "" })
+	mod(func(p *Profile) { p.Ticket = false })
+	mod(func(p *Profile) { p.InGroup = false })
+	mod(func(p *Profile) { p.Status = "blocked" })
+	mod(func(p *Profile) { p.CreatedOn = instantUTC(2025, 6, 15, 0, 0) })
+	return ps
+}
+
+func partA(tier string) []group {
+	var envsA []EnvSpec
+	for _, z := range []string{"UTC", "America/New_York"} {
+		for _, df := range dateFormats {
+			envsA = append(envsA, EnvSpec{TZ: z, DF: df})
+		}
+	}
+	envsA = append(envsA, EnvSpec{TZ: "UTC", DF: "YYYY-MM-DD", Redact: true})
+	profiles := genericProfiles()
+	var gs []group
+	for _, es := range envsA {
+		for _, prop := range propertiesAsWritten() {
+			es, prop := es, prop
+			gs = append(gs, group{"cond/" + es.String() + "/" + prop, func(emit func(*Case)) {
+				for _, op := range operatorsAsWritten {
+					for _, v := range condValues(es.DF) {
+						for _, p := range profiles {
+							emit(&Case{Kind: "cond", Env: es, Contact: p, Query: prop + " " + op + " " + v})
+						}
+					}
+				}
+			}})
+		}
+	}
+	return gs
+}
+
+// ---- part B: numbers ----------------------------------------------------------------------------
+
+var numberQueryValues = []string{
+	"-1", "0", "0.5", "1", "1000000000000000000", "0.50", "1.0", "1e18", "999999999999999999", "1000000000000000001",
+	"0.5000000000000000001", "0.4999999999999999999", "00", "+1", ".5", "1.", "1e3", "-0.5", "1e-1", "2",
+}
+var numberContactValues = []string{"", "-1", "0", "0.5", "1", "1000000000000000000", "0.5000000000000000001", "1000000000000000001"}
+
+func partB(tier string) []group {
+	var gs []group
+	for _, es := range []EnvSpec{{TZ: "UTC", DF: "YYYY-MM-DD"}, {TZ: "America/New_York", DF: "DD-MM-YYYY"}} {
+		for _, prop := range []string{"fields.age", "age", "tickets"} {
+			es, prop := es, prop
+			gs = append(gs, group{"number/" + es.String() + "/" + prop, func(emit func(*Case)) {
+				var profiles []Profile
+				if prop == "tickets" {
+					profiles = []Profile{{CreatedOn: defaultCreatedOn}, {CreatedOn: defaultCreatedOn, Ticket: true}}
+				} else {
+					for _, a := range numberContactValues {
+						profiles = append(profiles, Profile{CreatedOn: defaultCreatedOn, Name: "Ann", Age: a})
+					}
+				}
+				for _, v := range numberQueryValues {
+					for _, p := range profiles {
+						emit(&Case{Kind: "number", Env: es, Contact: p, Prop: prop, Value: v})
+					}
+				}
+			}})
+		}
+	}
+	return gs
+}
+
+// ---- part C: dates ------------------------------------------------------------------------------
+
+// queryDays: ordinary days, year/leap boundaries and the days on which the zones of the space
+// change their UTC offset (23-hour and 25-hour days, incl. zones that switch at local midnight).
+func queryDays(tier string) []Day {
+	ds := []Day{
+		{2025, 6, 15}, {2024, 2, 29}, {2024, 12, 31}, {2025, 1, 1},
+		{2025, 3, 9}, {2025, 11, 2}, // America/New_York: 23 h, 25 h
+		{2025, 4, 25}, {2025, 10, 30}, {2025, 10, 31}, // Africa/Cairo: switches at local midnight
+		{2018, 11, 4}, {2018, 2, 17}, {2018, 2, 18}, // America/Sao_Paulo: switched at local midnight (America/Havana does on 2025-03-09 and 2025-11-02)
+		{2025, 3, 10}, {2025, 12, 1},
+	}
+	if tier == "thorough" {
+		seen := map[Day]bool{}
+		for _, d := range ds {
+			seen[d] = true
+		}
+		for t := time.Date(2024, 1, 1, 12, 0, 0, 0, time.UTC); t.Year() < 2026; t = t.Add(24 * time.Hour) {
+			d := Day{t.Year(), t.Month(), t.Day()}
+			if !seen[d] {
+				ds = append(ds, d)
+				seen[d] = true
+			}
+		}
+	}
+	return ds
+}
+
+type dateLiteral struct {
+	kind, text string
+}
+
+func dateLiterals(d Day, es EnvSpec, full bool) []dateLiteral {
+	loc := es.loc()
+	ls := []dateLiteral{{"env-format", d.format(es.DF)}}
+	if es.DF != "YYYY-MM-DD" {
+		ls = append(ls, dateLiteral{"iso-date", d.String()})
+	}
+	if !full {
+		return ls
+	}
+	ls = append(ls, dateLiteral{"env-format+time", d.format(es.DF) + " 10:30"})
+	ten := time.Date(d.Y, d.M, d.D, 10, 30, 0, 0, loc)
+	ls = append(ls, dateLiteral{"iso-env-offset", ten.Format("2006-01-02T15:04:05Z07:00")})
+	for _, hh := range []int{2, 22} {
+		t := time.Date(d.Y, d.M, d.D, hh, 0, 0, 0, loc)
+		if dayOf(t, loc) != d {
+			continue
+		}
+		ls = append(ls, dateLiteral{"iso-utc", t.UTC().Format("2006-01-02T15:04:05Z07:00")})
+		ls = append(ls, dateLiteral{"iso-foreign-offset", t.In(time.FixedZone("", 5*3600)).Format("2006-01-02T15:04:05Z07:00")})
+	}
+	return ls
+}
+
+func dateInstants(d Day, loc *time.Location) []time.Time {
+	s, e := dayBounds(d, loc)
+	noon := time.Date(d.Y, d.M, d.D, 12, 0, 0, 0, loc)
+	cand := []time.Time{
+		s.Add(-12 * time.Hour), s.Add(-1), s, s.Add(1), noon, e.Add(-1), e, e.Add(1), e.Add(30 * time.Minute), e.Add(12 * time.Hour),
+		s.Add(24*time.Hour - 1), s.Add(24 * time.Hour), s.Add(24*time.Hour + 30*time.Minute), s.Add(24*time.Hour - 30*time.Minute),
+	}
+	var out []time.Time
+	seen := map[int64]bool{}
+	for _, t := range cand {
+		if !seen[t.UnixNano()] {
+			seen[t.UnixNano()] = true
+			out = append(out, t)
+		}
+	}
+	return out
+}
+
+func partC(tier string) []group {
+	var gs []group
+	days := queryDays(tier)
+	base := len(queryDays("quick"))
+	for _, z := range zones {
+		for _, df := range dateFormats {
+			es := EnvSpec{TZ: z, DF: df}
+			for di, d := range days {
+				d := d
+				full := di < base // the extra days of the thorough tier use the two plain literal kinds and two properties
+				props := []string{"created_on", "last_seen_on", "fields.joined", "joined"}
+				if !full {
+					props = []string{"created_on", "fields.joined"}
+				}
+				gs = append(gs, group{"date/" + es.String() + "/" + d.String(), func(emit func(*Case)) {
+					loc := es.loc()
+					instants := dateInstants(d, loc)
+					for _, prop := range props {
+						for _, lit := range dateLiterals(d, es, full) {
+							for _, t := range instants {
+								p := Profile{Name: "Ann", CreatedOn: defaultCreatedOn}
+								switch prop {
+								case "created_on":
+									p.CreatedOn = rfc(t.UTC())
+								case "last_seen_on":
+									p.LastSeen = rfc(t.UTC())
+								default:
+									p.Joined = rfc(t.UTC())
+								}
+								dd := d
+								emit(&Case{Kind: "date", Env: es, Contact: p, Prop: prop, Value: lit.text, Day: &dd, QKind: lit.kind})
+							}
+							if prop != "created_on" && full {
+								dd := d
+								emit(&Case{Kind: "date", Env: es, Contact: Profile{Name: "Ann", CreatedOn: defaultCreatedOn}, Prop: prop, Value: lit.text, Day: &dd, QKind: lit.kind})
+							}
+						}
+					}
+				}})
+			}
+		}
+	}
+	return gs
+}
+
+// ---- part D: boolean structure ---------------------------------------------------------------
+
+type atomSet struct {
+	env   EnvSpec
+	atoms []Atom
+	// on[i] / off[i] modify a profile so that atom i is true / false
+	on, off []func(p *Profile)
+}
+
+func atomSets() []atomSet {
+	return []atomSet{
+		{
+			env: EnvSpec{TZ: "UTC", DF: "YYYY-MM-DD"},
+			atoms: []Atom{
+				{"attr", "name", "=", "ann lee"},
+				{"field", "age", ">", "0"},
+				{"urn", "tel", "~", "2065"},
+				{"field", "joined", "=", "2025-06-15"},
+			},
+			on: []func(p *Profile){
+				func(p *Profile) { p.Name = "Ann Lee" },
+				func(p *Profile) { p.Age = "1" },
+				func(p *Profile) { p.URNs = []string{"tel:+19995550000", "tel:+12065551212", "twitter:ann"} },
+				func(p *Profile) { p.Joined = instantUTC(2025, 6, 15, 12, 0) },
+			},
+			off: []func(p *Profile){
+				func(p *Profile) { p.Name = "Bob" },
+				func(p *Profile) { p.Age = "-1" },
+				func(p *Profile) { p.URNs = []string{"tel:+19995550000", "twitter:ann"} },
+				func(p *Profile) { p.Joined = instantUTC(2025, 6, 16, 12, 0) },
+			},
+		},
+		{
+			env: EnvSpec{TZ: "America/New_York", DF: "DD-MM-YYYY"},
+			atoms: []Atom{
+				{"attr", "language", "=", ""},
+				{"urn", "twitter", "!=", ""},
+				{"field", "gender", "!=", "m"},
+				{"attr", "created_on", "<=", "15-06-2025"},
+			},
+			on: []func(p *Profile){
+				func(p *Profile) { p.Lang = "" },
+				func(p *Profile) { p.URNs = []string{"tel:+19995550000", "twitter:ann"} },
+				func(p *Profile) { p.Gender = "F" },
+				func(p *Profile) { p.CreatedOn = instantUTC(2025, 6, 15, 12, 0) },
+			},
+			off: []func(p *Profile){
+				func(p *Profile) { p.Lang = "eng" },
+				func(p *Profile) { p.URNs = []string{"tel:+19995550000"} },
+				func(p *Profile) { p.Gender = "M" },
+				func(p *Profile) { p.CreatedOn = instantUTC(2025, 6, 17, 12, 0) },
+			},
+		},
+	}
+}
+
+func (as atomSet) profiles() []Profile {
+	var ps []Profile
+	for m := 0; m < 1<<len(as.atoms); m++ {
+		p := Profile{CreatedOn: defaultCreatedOn}
+		for i := range as.atoms {
+			if m&(1<<i) != 0 {
+				as.on[i](&p)
+			} else {
+				as.off[i](&p)
+			}
+		}
+		ps = append(ps, p)
+	}
+	return ps
+}
+
+// boolTrees: every tree of depth <= 2 over 4 atoms with root arity 2 (children: an atom or a
+// two-atom combination, 36 options) or root arity 3 (children: an atom or a two-atom combination of
+// distinct atoms in index order, 16 options), plus the 4 single atoms.
+func boolTrees() []*Tree {
+	var atoms, wide, narrow []*Tree
+	for i := 0; i < 4; i++ {
+		atoms = append(atoms, leaf(i))
+	}
+	wide = append(wide, atoms...)
+	narrow = append(narrow, atoms...)
+	for _, op := range []string{"and", "or"} {
+		for i := 0; i < 4; i++ {
+			for j := 0; j < 4; j++ {
+				wide = append(wide, comb(op, leaf(i), leaf(j)))
+				if i < j {
+					narrow = append(narrow, comb(op, leaf(i), leaf(j)))
+				}
+			}
+		}
+	}
+	ts := append([]*Tree{}, atoms...)
+	for _, op := range []string{"and", "or"} {
+		for _, a := range wide {
+			for _, b := range wide {
+				ts = append(ts, comb(op, a, b))
+			}
+		}
+		for _, a := range narrow {
+			for _, b := range narrow {
+				for _, c := range narrow {
+					ts = append(ts, comb(op, a, b, c))
+				}
+			}
+		}
+	}
+	return ts
+}
+
+func hasAnd(t *Tree) bool {
+	if t.Op == "and" {
+		return true
+	}
+	for _, k := range t.Kids {
+		if hasAnd(k) {
+			return true
+		}
+	}
+	return false
+}
+
+// simplifyTrees: constructed trees including the non-canonical ones the parser never produces
+// unsimplified: single-child combinations and same-operator nesting, depth <= 3.
+func simplifyTrees() []*Tree {
+	var t1 []*Tree
+	for i := 0; i < 4; i++ {
+		t1 = append(t1, leaf(i))
+	}
+	atoms := append([]*Tree{}, t1...)
+	for _, op := range []string{"and", "or"} {
+		for _, a := range atoms {
+			t1 = append(t1, comb(op, a))
+			for _, b := range atoms {
+				t1 = append(t1, comb(op, a, b))
+			}
+		}
+	}
+	t2 := append([]*Tree{}, t1...)
+	for _, op := range []string{"and", "or"} {
+		for _, a := range t1 {
+			t2 = append(t2, comb(op, a))
+			for _, b := range t1 {
+				t2 = append(t2, comb(op, a, b))
+			}
+		}
+	}
+	t3 := append([]*Tree{}, t2...)
+	for _, op := range []string{"and", "or"} {
+		for _, a := range t2 {
+			if a.Op != "" {
+				t3 = append(t3, comb(op, a))
+			}
+		}
+	}
+	return t3
+}
+
+func partD(tier string) []group {
+	var gs []group
+	trees := boolTrees()
+	stree := simplifyTrees()
+	for si, as := range atomSets() {
+		as := as
+		for pi, p := range as.profiles() {
+			p := p
+			gs = append(gs, group{fmt.Sprintf("bool/%d/%d", si, pi), func(emit func(*Case)) {
+				for _, t := range trees {
+					styles := []string{"upper", "lower"}
+					if hasAnd(t) {
+						styles = append(styles, "implicit")
+					}
+					if t.Op == "" {
+						styles = styles[:1]
+					}
+					for _, st := range styles {
+						emit(&Case{Kind: "bool", Env: as.env, Contact: p, Atoms: as.atoms, Tree: t, Style: st})
+					}
+				}
+			}})
+			gs = append(gs, group{fmt.Sprintf("simplify/%d/%d", si, pi), func(emit func(*Case)) {
+				for _, t := range stree {
+					emit(&Case{Kind: "simplify", Env: as.env, Contact: p, Atoms: as.atoms, Tree: t})
+				}
+			}})
+		}
+	}
+	return gs
+}
+
+// ---- part E: risky cases (may not return) ------------------------------------------------------
+
+func riskyCases() []*Case {
+	es := EnvSpec{TZ: "UTC", DF: "YYYY-MM-DD"}
+	p := Profile{Name: "Ann", Age: "1", CreatedOn: defaultCreatedOn}
+	return []*Case{
+		{Kind: "cond", Env: es, Contact: p, Query: "fields.age < 1e999999999"},
+		{Kind: "cond", Env: es, Contact: p, Query: "fields.age = 1e-999999999"},
+	}
+}
+
+func riskyDesc(cs *Case) string { return mc.JSON(cs) }
+
+// ---- run ----------------------------------------------------------------------------------------
+
+func allGroups(tier string) []group {
+	var gs []group
+	gs = append(gs, partA(tier)...)
+	gs = append(gs, partB(tier)...)
+	gs = append(gs, partC(tier)...)
+	gs = append(gs, partD(tier)...)
+	return gs
+}
+
+func record(c *mc.Ctx, cs *Case, o *obs, ps []Problem) {
+	c.Add("evaluations", int64(o.evals))
+	c.Inc("cases:" + cs.Kind)
+	if o.admitted {
+		c.Inc("distinct_nontrivial")
+		c.Inc("admitted:" + cs.Kind)
+	} else if o.reject != "" {
+		c.Inc("rejected_by_validator:" + cs.Kind)
+		c.Outcome("reject:" + o.reject)
+	}
+	for _, f := range o.facts {
+		c.Fact(f)
+	}
+	for _, f := range o.outcomes {
+		c.Outcome(f)
+	}
+	for _, p := range ps {
+		c.Violation(p.Key, p.What, cs)
+	}
+}
+
+func run(c *mc.Ctx) {
+	dates.SetNowFunc(dates.NewFixedNow(time.Date(2025, 5, 4, 12, 30, 45, 0, time.UTC)))
+	if _, err := sessionAssets(); err != nil {
+		c.Violation("harness:assets", err.Error(), nil)
+		return
+	}
+	gs := allGroups(c.Tier)
+	// VERIF_SEED only rotates the order in which groups are visited
+	off := 0
+	if len(gs) > 0 {
+		off = int(uint64(c.Seed) % uint64(len(gs)))
+	}
+	// risky cases: one per shard index so that a hang costs one shard only
+	for i, cs := range riskyCases() {
+		if !c.Mine(len(gs) + 1 + i*5) {
+			continue
+		}
+		desc := riskyDesc(cs)
+		if !c.Risky(desc) {
+			c.Inc("risky_cases_skipped_after_hang")
+			continue
+		}
+		o := &obs{}
+		ps := check(cs, o)
+		c.Done()
+		c.Inc("risky_cases_completed")
+		record(c, cs, o, ps)
+	}
+
+	done := 0
+	for k := range gs {
+		i := (k + off) % len(gs)
+		if !c.Mine(i) {
+			continue
+		}
+		if c.Expired() {
+			c.Cap(fmt.Sprintf("time budget reached after %d of this worker's groups; groups (part/environment/property or day or contact) before the cap were enumerated completely", done))
+			break
+		}
+		sampled := false
+		gs[i].gen(func(cs *Case) {
+			o := &obs{}
+			var ps []Problem
+			if pnc := mc.Guard(func() { ps = check(cs, o) }); pnc != "" {
+				ps = append(ps, Problem{Key: "harness:panic:" + mc.PanicSite(pnc), What: pnc})
+			}
+			record(c, cs, o, ps)
+			if !sampled && o.admitted && c.WantSample() && i%7 == 3 {
+				sampled = true
+				c.Sample(cs)
+			}
+		})
+		done++
+		c.Inc("groups")
+	}
+}
+
+func single(c *mc.Ctx, desc string) string {
+	var cs Case
+	if err := json.Unmarshal([]byte(desc), &cs); err != nil {
+		return "bad risky case: " + err.Error()
+	}
+	o := &obs{}
+	ps := check(&cs, o)
+	return fmt.Sprintf("completed: %d problems", len(ps))
+}
+
+func classify(desc, output string, hang bool) (string, string) {
+	var cs Case
+	json.Unmarshal([]byte(desc), &cs)
+	kind := "crash"
+	if hang {
+		kind = "does-not-return"
+	}
+	shape := "other"
+	if strings.Contains(cs.Query, "e") && strings.Contains(cs.Query, "fields.age") {
+		shape = "number-literal-with-huge-exponent"
+	}
+	return fmt.Sprintf("totality:evaluate-%s:%s", kind, shape),
+		fmt.Sprintf("EvaluateQuery %s within the limit: env=%s query=%q contact=%s", map[bool]string{true: "did not return", false: "crashed the process"}[hang], cs.Env, cs.Query, cs.Contact.key())
+}
+
+func replayFn(c *mc.Ctx, raw json.RawMessage) (string, bool) {
+	dates.SetNowFunc(dates.NewFixedNow(time.Date(2025, 5, 4, 12, 30, 45, 0, time.UTC)))
+	var wrapper struct {
+		Risky string `json:"risky"`
+	}
+	if json.Unmarshal(raw, &wrapper) == nil && wrapper.Risky != "" {
+		raw = json.RawMessage(wrapper.Risky)
+	}
+	var cs Case
+	if err := json.Unmarshal(raw, &cs); err != nil {
+		return "bad replay: " + err.Error(), false
+	}
+	type result struct {
+		ps []Problem
+		o  *obs
+	}
+	ch := make(chan result, 1)
+	go func() {
+		o := &obs{}
+		var ps []Problem
+		if pnc := mc.Guard(func() { ps = check(&cs, o) }); pnc != "" {
+			ps = append(ps, Problem{Key: "harness:panic:" + mc.PanicSite(pnc), What: pnc})
+		}
+		ch <- result{ps, o}
+	}()
+	select {
+	case r := <-ch:
+		out := fmt.Sprintf("case: %s\nadmitted=%t reject=%q evaluations=%d\n", mc.JSON(cs), r.o.admitted, r.o.reject, r.o.evals)
+		for _, p := range r.ps {
+			out += fmt.Sprintf("PROBLEM %s\n  %s\n", p.Key, strings.ReplaceAll(p.What, "\n", "\n  "))
+		}
+		return out, len(r.ps) > 0
+	case <-time.After(10 * time.Second):
+		return fmt.Sprintf("case: %s\nPROBLEM: the evaluation did not return within 10 s", mc.JSON(cs)), true
+	}
+}
+
+func guards(r *mc.Result, tier string) []string {
+	var f []string
+	need := func(fact string) {
+		if r.Facts[fact] == 0 {
+			f = append(f, "never observed: "+fact)
+		}
+	}
+	for _, op := range []string{"=", "!=", "~", ">", "<", ">=", "<="} {
+		need("admitted-op:" + op)
+		need("cond-true:" + op)
+		need("cond-false:" + op)
+	}
+	for _, cls := range []string{"attr.uuid", "attr.id", "attr.name", "attr.status", "attr.language", "attr.urn", "attr.group", "attr.flow", "attr.history",
+		"attr.tickets", "attr.created_on", "attr.last_seen_on", "urn", "field.text", "field.number", "field.datetime", "field.state", "field.district", "field.ward"} {
+		need("admitted-prop:" + cls)
+	}
+	for _, cls := range []string{"attr.name", "attr.language", "attr.urn", "attr.last_seen_on", "urn", "field.text", "field.number", "field.datetime", "field.state", "field.ward"} {
+		need("existence-prop:" + cls)
+	}
+	for _, op := range []string{"=", "!="} {
+		need("existence:" + op + ":present=true")
+		need("existence:" + op + ":present=false")
+	}
+	for _, op := range []string{"<", "=", ">"} {
+		need("number:holds:" + op)
+		need("date:holds:" + op)
+	}
+	need("number:absent-value")
+	need("date:absent-value")
+	for _, w := range []string{"last-ns-before-day", "first-instant-of-day", "inside-day", "last-ns-of-day", "first-instant-after-day", "after-day", "before-day"} {
+		need("date:instant:" + w)
+	}
+	for _, l := range []string{"23h", "24h", "25h"} {
+		need("date:day-length:" + l)
+	}
+	for _, k := range []string{"env-format", "iso-date", "env-format+time", "iso-env-offset", "iso-utc", "iso-foreign-offset"} {
+		need("date:query-kind:" + k)
+	}
+	for m := 0; m < 16; m++ {
+		a := fmt.Sprintf("%04b", m)
+		need("bool:assignment:" + a)
+		need("simplify:assignment:" + a)
+	}
+	for _, s := range []string{"upper", "lower", "implicit"} {
+		need("bool:style:" + s)
+	}
+	need("bool:result:true")
+	need("bool:result:false")
+	need("simplify:changed-structure")
+	need("simplify:kept-structure")
+	for _, k := range []string{"cond", "number", "date", "bool", "simplify"} {
+		if r.Counters["admitted:"+k] == 0 {
+			f = append(f, "no admitted case of kind "+k)
+		}
+	}
+	if r.Counters["rejected_by_validator:cond"] == 0 {
+		f = append(f, "the validator never rejected a condition (the admitted set is not decided by the real validator)")
+	}
+	if r.Counters["risky_cases_completed"]+r.Counters["risky_cases_skipped_after_hang"] < int64(len(riskyCases())) {
+		f = append(f, "not all risky cases were attempted")
+	}
+	return f
+}
+
+func init() {
+	mc.Register(&mc.Check{
+		ID:    "C15",
+		Level: "exploration",
+		Rule: "exhaustive products, every case on the real ParseQuery (resolver = real SessionAssets) + EvaluateQuery + flows.Contact read from JSON: " +
+			"(A) every property as written (12 attributes, every URN scheme bare and urns.-prefixed, a field of each of the 6 types bare and fields.-prefixed, unknown names) x 10 operator spellings x 36-37 literals x 22 contacts x 7 environments - the real validator decides which conditions are admitted; no panic, and empty-valued =/!= must agree with presence in the contact model; " +
+			"(B) 3 number properties x 20 query literals x 8 contact values x 6 operators: exactly-one-of <,=,>, <=/>= unions, != negation; " +
+			"(C) 6 zones x 3 date formats x 14 query days (ordinary, leap/year ends, 23 h and 25 h days, zones switching at midnight; thorough: every day of 2024-2025) x 4 date properties x up to 8 ways of writing the day x 14 instants around both ends of the day (+-1 ns) x 6 operators: same relations, and each operator must equal the comparison of calendar days in the environment zone; " +
+			"(D) 2 atom sets x 16 contacts realising every truth assignment x every AND/OR tree of depth <= 2 (root arity 2: 36^2, arity 3: 16^3 children) in 3 spellings, result must be the conjunction/disjunction of the operands' own results; every constructed tree of depth <= 3 incl. single-child and same-operator nesting: Simplify() must keep the meaning, and the parsed (simplified) text must evaluate to it. " +
+			"distinct_nontrivial counts cases whose query the validator admitted (each case is a distinct tuple by construction).",
+		Assumptions: []string{
+			"bounded alphabets of literals, contacts, zones and days as listed in the rule; the parse and evaluate environments are the same",
+			"absence/presence is not demanded for attributes a contact does not expose to queries (id, group, flow, history, status) nor where the validator forbids set-checks",
+			"numeric order itself is not part of the statement: only the stated mutual consistency of the operators is demanded for numbers",
+			"queries can only be evaluated after ParseQuery (ContactQuery has no constructor), so 'simplification never changes the result' is checked structurally on Simplify() over the operands' results and end-to-end on the parsed text",
+		},
+		Run:         run,
+		Replay:      replayFn,
+		Guards:      guards,
+		Single:      single,
+		Classify:    classify,
+		HangLimit:   5 * time.Second,
+		SingleLimit: 8 * time.Second,
+		Budget:      map[string]time.Duration{"quick": 3 * time.Minute, "thorough": 15 * time.Minute},
+	})
+}
+
+var _ = contactql.OpEqual
